@@ -216,6 +216,8 @@ class Requestant(httping.Parsent):
             raise ValueError("Invalid content length of {0}".format(self.length))
 
         del self.body[:]  # self.body.clear() clear body python2 bytearrays don't clear
+        self.parms = None  # forget chunk extension parms of previous message
+        self.trails = None  # forget trailing headers of previous message
 
         if self.chunked:  # chunked takes precedence over length
             self.parms = odict()
